@@ -3,8 +3,11 @@
 // Contracts for package writer.
 package writer
 
+// C18: a write never changes the writer's configuration, the per-call options
+// it is handed, or the package defaults (frame condition)
 //@ func Writer.WriteStreamWithOptions
-//@   props C07
+//@   props C07, C18
+//@   assigns \nothing
 //@   requires w.Options != nil && o != nil && defaultOptions != nil && defaultOptions.SerializeOptions != nil && defaultOptions.RenderOptions != nil
 
 //@ func GetFormatSerializer
